@@ -213,6 +213,64 @@ def oracle(sc, res):
     return v
 
 
+def reacting_cases(rng, n):
+    """request callbacks that DO something: (a) one that fails once — the next request is served like the first; (b) on a bus
+    that delivers at once, the callback of the first CA sends a message to a third node, which answers this ECU with a message
+    of its own before that callback has returned — the second CA is still called back with the REQUESTER's address"""
+    for k in range(n):
+        R_, X, Y, Z = rng.sample(range(0x10, 0xF0), 4)
+        pgn = rng.choice([0xFECA, 0xFEDA, 0x1234, 0x3FFFF])
+        if k % 2 == 0:
+            stacks = [dict(dll='j1939-21', max_cmdt=1, subs=[], cas=[dict(name=5, addr=R_, bypass=True, subs=[1], req=[2])]),
+                      dict(dll='j1939-21', max_cmdt=1, subs=[], cas=[dict(name=6, addr=X, bypass=True, subs=[10], req=[11, 12],
+                                                                         req_scripts={'11': [dict(op='raise', once='boom')]})])]
+            dests = [rng.choice([X, 255]) for _ in range(3)]
+            script = [dict(t=1000 + 50000 * i, s=0, op='ca_request', ca=0, a=[0, pgn + i, d]) for i, d in enumerate(dests)]
+            yield dict(stacks=stacks, lat=[rng.choice([0, 1, 500])], jit=[1], script=script, horizon=400000,
+                       meta=dict(kind='callback-fails-once', requester=R_, X=X, pgns=[pgn + i for i in range(3)], dests=dests))
+        else:
+            stacks = [dict(dll='j1939-21', max_cmdt=1, subs=[], cas=[dict(name=5, addr=R_, bypass=True, subs=[1], req=[2])]),
+                      dict(dll='j1939-21', max_cmdt=1, subs=[], cas=[dict(name=6, addr=X, bypass=True, subs=[10], req=[11],
+                                                                         req_scripts={'11': [dict(op='send', a=[0, 0xD5, Z, 6, X, [1, 2, 3]])]}),
+                                                                    dict(name=7, addr=Y, bypass=True, subs=[20], req=[21])]),
+                      dict(dll='j1939-21', max_cmdt=1, subs=[dict(cid=30, filt=Z, script=[dict(op='send', a=[0, 0xD6, rng.choice([X, Y]), 6, Z, [4, 5]])])], cas=[])]
+            script = [dict(t=1000, s=0, op='ca_request', ca=0, a=[0, pgn, 255]), dict(t=60000, s=0, op='ca_request', ca=0, a=[0, pgn + 1, Y])]
+            yield dict(stacks=stacks, lat=[0], jit=[1], script=script, horizon=400000,
+                       meta=dict(kind='callback-talks', requester=R_, X=X, Y=Y, Z=Z, pgn=pgn))
+
+
+def reacting_oracle(sc, res):
+    from collections import Counter
+    m, v = sc['meta'], []
+    obs = Counter((e[3], e[4], e[5], e[6]) for e in res.trace if e[2] == 'req' and e[1] == 1)
+    if m['kind'] == 'callback-fails-once':
+        # (the request during which the application's callback failed is the application's business; the later ones are not)
+        for i in (1, 2):
+            for cb in (11, 12):
+                k = (cb, m['requester'], m['dests'][i], m['pgns'][i])
+                if obs.get(k, 0) != 1:
+                    v.append(dict(kind='request-after-a-failed-callback-not-served', callback=cb, request=i, observed=obs.get(k, 0), meta=m))
+    else:
+        exp = Counter({(11, m['requester'], 255, m['pgn']): 1, (21, m['requester'], 255, m['pgn']): 1, (21, m['requester'], m['Y'], m['pgn'] + 1): 1})
+        if obs != exp:
+            v.append(dict(kind='request-callbacks-differ-when-a-callback-talks-on-the-bus', observed=sorted(obs.items()), expected=sorted(exp.items()), meta=m))
+    for j, js in enumerate(res.job):
+        if js != 'alive':
+            v.append(dict(kind='job-thread-' + js, stack=j))
+    return v
+
+
+def scenario_runner(sc):
+    import scen
+    return scen.run(sc)
+
+
+def scenario_oracle(sc, res):
+    if isinstance(sc.get('meta'), dict) and sc['meta'].get('kind') in ('callback-fails-once', 'callback-talks'):
+        return reacting_oracle(sc, res)
+    return oracle(sc, res)
+
+
 def nontrivial(sc, res):
     return any(e[2] == 'req' for e in res.trace) or any(e[2] == 'tx' and e[1] != 0 and e[0] > 1_000_500 for e in res.trace)
 
@@ -223,7 +281,15 @@ def run(out, tier, rng, work):
                 'owned, global and unowned; oracle: callbacks exactly at the operational owners (once per callback, with requester SA, '
                 'destination, PGN), EE00 answered by address-claimed frames with the NAME from the address, nothing from CAs without address; '
                 'dp=1: safety half only; handler logs replayed on the Coq model; non-trivial = some answer happened'
-                ' Request PGNs include the neighbours of the address-claim PGN; a family in which a fixed-address CA loses its address and its cannot-claim frame is refused by the driver (can.CanError).')
+                ' Plus request callbacks that fail once or talk on the bus themselves (oracle only).  Request PGNs include the neighbours of the address-claim PGN; a family in which a fixed-address CA loses its address and its cannot-claim frame is refused by the driver (can.CanError).')
     out.assumptions = ['A1-A6 of DESIGN.md section 3', 'data page 1 requests are sent as PGN 0x1EA00 which receivers treat as an ordinary PDU1 message (recorded reading, DESIGN.md C14)']
     sprop.run_stateful(out, 'C14', tier, rng, work, FILES, gen, oracle, 150, 2500, nontrivial,
                        sample=lambda sc, res: dict(meta=sc['meta'][:3], requests=[e['a'] for e in sc['script'] if e['op'] == 'ca_request'][:3]))
+    import scen as _scen
+    for sc in reacting_cases(rng, 12 if tier == 'quick' else 120):
+        res = _scen.run(sc)
+        out.add_case(_scen.sc_hash(sc), True)
+        for x in reacting_oracle(sc, res)[:1]:
+            out.violation('%s: %s' % (x['kind'], str(x)[:250]), dict(kind=x['kind']), dict(broke='oracle', scenario=sc, violation=x, scenario_name='reacting-callbacks',
+                          how='./check replay <this file> re-runs the scenario on /repo and prints the oracle verdict'))
+            break
